@@ -12,6 +12,7 @@ import (
 
 	"rtcpverif/bits"
 	"rtcpverif/core"
+	"rtcpverif/effects"
 	"rtcpverif/num"
 	"rtcpverif/spec"
 )
@@ -49,11 +50,11 @@ var xrTypeSpecific = map[string]string{
 func checkC15(c *Ctx) {
 	r := c.Rep
 	p := c.Prog
-	r.Explain = "Structural clauses of the XR block codec. BT: each block type's setupBlockHeader stores the registered RFC 3611 block type constant (bit-provenance of the stored octet) and the reader's type switch maps exactly the registered constants to the corresponding Go types with UnknownReportBlock as the default arm (SSA dominator conditions of each allocation). TS: the bit map setupBlockHeader writes into the type-specific octet equals the RFC 3611 table (thinning T in the low 4 bits, L/D/J flags and the 2-bit ToH kind at their positions, reserved bits zero) and unpackBlockHeader inverts it bit for bit. LAY: the octet widths of each block struct in declaration order (the order the reflective reader/writer walks; omit-tagged fields skipped) equal the RFC 3611 layout. BL: in ExtendedReport.Unmarshal the block is split at exactly 4*(BlockLength+1) octets as an integer identity (no fixed-width wrap), and each setupBlockHeader stores BlockLength = wireSize(b)/4 - 1. UNK: UnknownReportBlock.setupBlockHeader stores nothing but the block length (type and type-specific octet pass through), and its wire form is header + raw octets."
-	r.RuleText = "C15-BT, C15-DSP, C15-TS, C15-LAY, C15-BL, C15-UNK."
+	r.Explain = "Structural clauses of the XR block codec. BT: each block type's setupBlockHeader stores the registered RFC 3611 block type constant (bit-provenance of the stored octet) and the reader's type switch maps exactly the registered constants to the corresponding Go types with UnknownReportBlock as the default arm (SSA dominator conditions of each allocation). TS: the bit map setupBlockHeader writes into the type-specific octet equals the RFC 3611 table (thinning T in the low 4 bits, L/D/J flags and the 2-bit ToH kind at their positions, reserved bits zero) and unpackBlockHeader inverts it bit for bit. LAY: the octet widths of each block struct in declaration order (the order the reflective reader/writer walks; omit-tagged fields skipped) equal the RFC 3611 layout. BL: in ExtendedReport.Unmarshal the block is split at exactly 4*(BlockLength+1) octets as an integer identity (no fixed-width wrap), and each setupBlockHeader stores BlockLength = wireSize(b)/4 - 1. UNK: UnknownReportBlock.setupBlockHeader stores nothing but the block length (type and type-specific octet pass through), and its wire form is header + raw octets. OWN: after ExtendedReport.Unmarshal no memory of the report refers to the input slice (retention facts of checker/effects, reflect.Value.Set/SetBytes included), so the preserved content does not depend on the caller's buffer."
+	r.RuleText = "C15-BT, C15-DSP, C15-TS, C15-LAY, C15-BL, C15-UNK, C15-OWN."
 	r.Trusted = []string{"go/ssa, go/types", "bit-provenance engine checker/bits", "numeric engine checker/num", "the reflective reader/writer walk struct fields in declaration order and skip encoding:\"omit\" (guarded by C01's B-RFL/type-shape rules)", "RFC 3611 tables in props/c15.go, registry in spec/registry.go"}
 	r.Assume = []string{"block sizes are multiples of four octets (open findings F14a-c cover the element sizes that break this)"}
-	r.NotCov("that blocks decode independently of their neighbours beyond the split length (C06-LOC-style locality holds for the reflective reader through C01's bounds obligations); aliasing of decoded byte slices with the input (C18-INPUT / C01 B-RFL decide the reflect setters used)")
+	r.NotCov("that blocks decode independently of their neighbours beyond the split length (C06-LOC-style locality holds for the reflective reader through C01's bounds obligations)")
 
 	var blocks []string
 	for name := range xrWire {
@@ -157,6 +158,36 @@ func checkC15(c *Ctx) {
 	r.Floor("C15-BLOCK", 8)
 	c15Dispatch(c, regOf)
 	c15Split(c, hdr)
+	c15Own(c)
+}
+
+// c15Own: the decoded report holds its own copy of every block, in particular of the opaque content
+// of unknown blocks: no memory of the receiver refers to the input slice after Unmarshal (retention
+// facts of the effect analysis, reflect setters included). Otherwise "preserved through re-encoding"
+// would depend on what the caller does with its receive buffer between decode and encode.
+func c15Own(c *Ctx) {
+	r, p := c.Rep, c.Prog
+	fn, _ := p.Method("ExtendedReport", "Unmarshal")
+	if fn == nil {
+		r.Fatalf("unresolved anchor: (*ExtendedReport).Unmarshal")
+		return
+	}
+	r.Anchor("C15-OWN", "ExtendedReport.Unmarshal")
+	an := effects.New(p.SPkg, p.Funcs, p.CallGraph(), nil)
+	s := an.Sum[fn]
+	if s == nil {
+		r.Fatalf("no effect summary for (*ExtendedReport).Unmarshal")
+		return
+	}
+	k := len(fn.Params) - 1
+	bad := ""
+	if ss := s.RetainSites[[2]int{0, k}]; len(ss) > 0 {
+		bad = siteStr(p, ss[0])
+	}
+	r.Check(!s.Retains(0, k), "C15-OWN", "ExtendedReport.Unmarshal/blocks-own-their-content", p.Pos(fn.Pos()),
+		"no store, append or reflect setter reachable from the decoder leaves memory of the report referring to the input slice: opaque block content is copied octet by octet",
+		"the decoded report keeps a reference into the caller's buffer, so an unknown block's content is not preserved once the buffer is reused: "+bad)
+	r.Floor("C15-OWN", 1)
 }
 
 // tsSpec parses the type-specific octet notation.
